@@ -97,3 +97,23 @@ def run(tier, seed, escalate=False):
     res = _run_before_scale(tier, seed, escalate)
     f, n = axis_scale_independence("C12", SCALE_CASES, seed)
     return merge_oracle(res, f, n, "axis_scale_variants")
+
+
+# ------------------------------------------------------------------ the same argument values in another container / number type
+from oracles import argform_independence
+ARGFORM_CASES = [("integrate-regions", "t2", [(lab, (lambda r: lambda d, dim: dnp.integrate(d, dim, regions=r))(r)) for lab, r in (
+        ("list-of-tuples", [(1.0, 7.0), (4.0, 12.0)]), ("list-of-lists", [[1.0, 7.0], [4.0, 12.0]]), ("tuple-of-tuples", ((1.0, 7.0), (4.0, 12.0))),
+        ("ints", [(1, 7), (4, 12)]), ("numpy-floats", [(np.float64(1.0), np.float64(7.0)), (np.float64(4.0), np.float64(12.0))]),
+        ("rows-of-array", list(np.array([[1.0, 7.0], [4.0, 12.0]]))))]),
+    ("integrate-one-region", "t2", [(lab, (lambda r: lambda d, dim: dnp.integrate(d, dim, regions=r))(r)) for lab, r in (
+        ("list-of-one-tuple", [(3.0, 11.0)]), ("bare-tuple", (3.0, 11.0)), ("bare-list", [3.0, 11.0]), ("ints", [(3, 11)]))]),
+    ("enhancement-index", "Power", [(lab, (lambda k: lambda d, dim: dnp.calculate_enhancement(_power_first(dnp.integrate(d, "y3")), off_spectrum_index=k))(k))
+        for lab, k in (("int", 2), ("numpy-int", np.int64(2)), ("negative", -6), ("numpy-int32", np.int32(2)))])]
+_run_before_argform = run
+
+
+def run(tier, seed, escalate=False):
+    """… plus: sequence arguments as tuple / list / ndarray, numbers as Python / NumPy scalars, flags as bool / numpy.bool_ / 0-1"""
+    res = _run_before_argform(tier, seed, escalate)
+    f, n = argform_independence("C12", ARGFORM_CASES, seed)
+    return merge_oracle(res, f, n, "argument_form_variants")
